@@ -60,7 +60,11 @@ fn render(specs: &[&LcSpec]) -> (Rendered, Vec<String>) {
             body.insert(mid, "// </block>".into());
             body.insert(mid, "// <block name=\"inner\">".into());
         }
-        let blank = |k: usize| if k % 2 == 0 { String::new() } else { "   ".to_string() };
+        let blank = |k: usize| match k % 3 {
+            0 => String::new(),
+            1 => "   ".to_string(),
+            _ => "\u{3000}\u{a0}".to_string(), // blank by Unicode white space
+        };
         match s.blanks {
             Blanks::None => {}
             Blanks::First => body.insert(0, blank(i)),
